@@ -78,9 +78,84 @@ def op_strategy(weights):
                      st.integers(0, 11)).map(build)
 
 
-def case(classes, weights, max_ops=40, min_ops=4, cap_max=4):
+def segment_strategy(weights, macros):
+    """A segment is a short op list: either one random op or a macro (fill: k x (rp, put) then
+    advance; want: k x rg; drain: k x get).  Macros only raise the density of interesting
+    states; the flat op list stays the case format."""
+    single = op_strategy(weights)
+
+    def build(t):
+        sel, k, a, b, c, op = t
+        if sel >= macros:
+            return [op]
+        m = sel % 4
+        k = 1 + k % 3
+        if m == 0:      # fill
+            seg = []
+            for i in range(k):
+                seg.append(["rp", (a + i) % 3, 0])
+                seg.append(["put", 0, (b + i) % 6, (c + i) % 3])
+            seg.append(["adv", b % 8])
+            return seg
+        if m == 1:      # want
+            return [["rg", (a + i) % 3, 0, 0] for i in range(k)]
+        if m == 2:      # drain
+            return [["get", (a + i) % 4] for i in range(k)]
+        return [["adv", b % 8], ["adv", c % 8]]
+    return st.tuples(st.integers(0, 9), st.integers(0, 5), st.integers(0, 11), st.integers(0, 41),
+                     st.integers(0, 11), single).map(build)
+
+
+def case(classes, weights, max_ops=40, min_ops=4, cap_max=4, macros=3):
+    """macros = how many tenths of the segments are macros (0 disables)."""
+    def flat(segs):
+        ops = []
+        for s in segs:
+            ops.extend(s)
+        return ops[:max_ops + 10]
     return st.fixed_dictionaries({
         "subject": subject(classes, cap_max),
         "actors": st.integers(1, 3),
-        "ops": st.lists(op_strategy(weights), min_size=min_ops, max_size=max_ops),
+        "ops": st.lists(segment_strategy(weights, macros), min_size=min_ops, max_size=max_ops).map(flat),
     })
+
+
+def shrink_candidates(case):
+    """Store-case aware delta debugging: drop chunks of ops, then single ops, then simplify the subject."""
+    ops = case["ops"]
+    n = len(ops)
+    chunk = n // 2
+    while chunk >= 1:
+        i = 0
+        while i < n:
+            c = dict(case)
+            c["ops"] = ops[:i] + ops[i + chunk:]
+            yield c
+            i += chunk
+        chunk //= 2
+    if case.get("actors", 1) > 1:
+        c = dict(case)
+        c["actors"] = case["actors"] - 1
+        yield c
+    subj = case["subject"]
+    if subj.get("capacity", 1) > 1:
+        c = dict(case)
+        c["subject"] = dict(subj, capacity=subj["capacity"] - 1)
+        yield c
+    if subj.get("delay_kind") in ("callable", "generator"):
+        c = dict(case)
+        d = subj["delay"]
+        c["subject"] = dict(subj, delay_kind="const", delay=d[0] if isinstance(d, list) else d)
+        yield c
+    for key, simple in (("delay", 1), ("transit", 0), ("trigger_delay", 0)):
+        if key in subj and not isinstance(subj[key], list) and subj[key] != simple:
+            c = dict(case)
+            c["subject"] = dict(subj, **{key: simple})
+            yield c
+    # simplify op arguments towards 0
+    for i, op in enumerate(ops):
+        for j in range(1, len(op)):
+            if isinstance(op[j], int) and op[j] != 0:
+                c = dict(case)
+                c["ops"] = ops[:i] + [op[:j] + [0] + op[j + 1:]] + ops[i + 1:]
+                yield c
